@@ -350,6 +350,7 @@ def rebuild_rules(P, R):
         else:
             R.ok("C09.rebuild", inst, "rebuilt from %s in %s" % (string.split("::")[-1], got[0][0]))
     rebuild_reach_rule(P, R, found)
+    lineguard_rule(P, R)
     openfirst_rule(P, R)
     dump_request_rule(P, R)
 
@@ -996,3 +997,38 @@ def hiddenrun_rule(P, R):
                             "text and the file nothing" % (f["name"], m, sm), file=f["file"], line=line, function=f["q"])
     if n < 4:
         R.anchor_missing(RULE, "only %d file switches cleared around test_db" % n)
+
+
+def lineguard_rule(P, R):
+    """"line accessor i returns exactly line i of the string": update_lines rebuilds the line views after every run.  A string accumulates
+    under its string switch AND, message by message, under switches that the input can change during the run (log_on follows KNOBS
+    -logfile).  The view must be rebuilt whenever the string can hold text, so the guard of each rebuild may test the string switch of
+    that stream only (or the per-block look-up for selected output): a further conjunct that is evaluated once, after the run, drops
+    the lines of a string that was filled while the conjunct still held."""
+    RULE = "C09.lineguard"
+    R.rule(RULE, "update_lines: each line view is rebuilt under the string switch of its stream alone", minimum=2)
+    f = P.one("IPhreeqc::update_lines")
+    n = 0
+    for x in T.walk(f["body"]):
+        if x[0] != "If":
+            continue
+        pushes = [c for c in T.calls(x[3]) if T.callee_name(c) == "push_back" and "Lines" in T.text(c[3] if c[3] else c[4][0], -40)]
+        if not pushes or any(y[0] == "If" and any(T.callee_name(c) == "push_back" for c in T.calls(y[3])) for y in T.walk(x[3]) if y is not x):
+            continue
+        c = T.strip_casts(x[2])
+        members = sorted({y[2].split("::")[-1] for y in T.walk(c) if y[0] == "Member"})
+        calls = sorted({T.callee_name(y) for y in T.calls(c)})
+        if calls == ["end"] or "find" in calls or "end" in calls:
+            continue        # the iterator test inside the selected-output branch
+        n += 1
+        view = T.text(pushes[0][3] if pushes[0][3] else pushes[0][4][0], -40)
+        inst = view.split(".")[-1].split("[")[0][:30]
+        ok = (len(members) == 1 and members[0].endswith("StringOn") and not calls) or (not members and calls == ["get_sel_out_string_on"]) or \
+            (calls == ["get_sel_out_string_on"] and all(m_ in ("SelectedOutputStringOn",) for m_ in members))
+        if ok:
+            R.ok(RULE, inst, "guard: %s" % T.text(c)[:50])
+        else:
+            R.violation(RULE, inst, "the line view %s is rebuilt under `%s`: more than the string switch of the stream - a switch the input changes during the run (KNOBS -logfile) "
+                        "leaves the view empty while the string holds the text" % (inst, T.text(c)[:60]), file=f["file"], line=x[1], function=f["q"])
+    if n < 2:
+        R.anchor_missing(RULE, "update_lines: only %d guarded rebuilds found" % n)
